@@ -16,7 +16,9 @@
 package main
 
 import (
+	"bytes"
 	"crypto/rand"
+	"encoding/base64"
 	"encoding/json"
 	"fmt"
 	"os"
@@ -26,6 +28,7 @@ import (
 	"strings"
 	"time"
 
+	"github.com/tink-crypto/tink-go/v2/insecurecleartextkeyset"
 	"github.com/tink-crypto/tink-go/v2/internal/internalregistry"
 	"github.com/tink-crypto/tink-go/v2/internal/verifharness/hlib"
 	"github.com/tink-crypto/tink-go/v2/jwt"
@@ -211,7 +214,9 @@ type H struct {
 	rng   *hlib.Rng
 	pool  *pool
 	mon   *monClient
-	walk  int // position in the validator-option product space
+	walk  int          // position in the validator-option product space
+	seen  map[int]bool // combinations of the option product space visited so far
+	proto bool         // the current keyset went through its serialized form
 	t0    int64
 	keys  []*jkey // the current keyset, in keyset order
 	en    []*jkey // its enabled keys, in order
@@ -312,12 +317,26 @@ func (h *H) newKeyset() {
 		}
 	}
 	h.mac, h.sig, h.ver = nil, nil, nil
+	// half of the keysets reach the factories through their serialized form (binary keyset → handle)
+	h.proto = r.Bool()
+	via := func(kh *keyset.Handle) *keyset.Handle {
+		if !h.proto {
+			return kh
+		}
+		var buf bytes.Buffer
+		if err := insecurecleartextkeyset.Write(kh, keyset.NewBinaryWriter(&buf)); err != nil {
+			panic(fmt.Sprintf("c09: cannot serialize the keyset: %v", err))
+		}
+		return must(insecurecleartextkeyset.Read(keyset.NewBinaryReader(&buf), keyset.WithAnnotations(map[string]string{"verif": "c09"})))
+	}
 	if h.isMAC {
-		kh := must(handleFor(h.keys, false))
-		h.mac = must(jwt.NewMAC(kh))
+		h.mac = must(jwt.NewMAC(via(must(handleFor(h.keys, false)))))
 	} else {
-		h.sig = must(jwt.NewSigner(must(handleFor(h.keys, false))))
-		h.ver = must(jwt.NewVerifier(must(handleFor(h.keys, true))))
+		h.sig = must(jwt.NewSigner(via(must(handleFor(h.keys, false)))))
+		h.ver = must(jwt.NewVerifier(via(must(handleFor(h.keys, true)))))
+	}
+	if h.proto {
+		h.o.Count("keyset/via-serialized-form")
 	}
 	h.o.Count(fmt.Sprintf("keyset/size=%d", len(h.keys)))
 	h.o.Count(fmt.Sprintf("keyset/enabled=%d", len(h.en)))
@@ -645,6 +664,7 @@ func (h *H) product(t *tokInfo) vopts {
 	r := h.rng
 	h.walk = (h.walk + 577) % 1440
 	x := h.walk
+	h.seen[x] = true
 	take := func(n int) int { d := x % n; x /= n; return d }
 	v := vopts{}
 	match := func(s *string) *string {
@@ -746,7 +766,7 @@ func verifyLine(t *tokInfo) string {
 func (h *H) verify(p prims, t *tokInfo, v vopts, label string) string {
 	val, err := v.build()
 	if err != nil {
-		h.o.Emit(v.line(), "err", true)
+		h.o.Emit(v.line(), "err", false)
 		h.o.Count("opts/invalid")
 		return "noval"
 	}
@@ -1218,11 +1238,30 @@ func (h *H) jwkPhase(reals []*realTok, crafted []*tokInfo) {
 	} else if l, ok := m["keys"].([]any); !ok || len(l) != len(h.en) {
 		h.violate("JWK set has %v keys, want the %d enabled ones: %s", m["keys"], len(h.en), set)
 	} else {
-		for _, e := range l {
+		for i, e := range l {
 			em, _ := e.(map[string]any)
 			for _, f := range []string{"d", "p", "q", "dp", "dq", "qi", "k"} {
 				if _, bad := em[f]; bad {
 					h.violate("JWK export contains private parameter %q: %s", f, set)
+				}
+			}
+			// the public key itself, as RFC 7517/7518 spell it
+			k := h.en[i]
+			want := map[string]any{"alg": k.m.alg}
+			if kid := k.headerKid(); kid != nil {
+				want["kid"] = *kid
+			}
+			enc := base64.RawURLEncoding.EncodeToString
+			if k.m.rsa != nil {
+				want["kty"], want["n"], want["e"] = "RSA", enc(k.m.rsa.n), "AQAB"
+			} else {
+				cl := (len(k.m.ecPub) - 1) / 2
+				want["kty"], want["crv"] = "EC", []string{"P-256", "P-384", "P-521"}[algIndex(k.m.alg)]
+				want["x"], want["y"] = enc(k.m.ecPub[1:1+cl]), enc(k.m.ecPub[1+cl:])
+			}
+			for _, f := range []string{"alg", "kid", "kty", "crv", "x", "y", "n", "e"} {
+				if wv, gv := want[f], em[f]; !reflect.DeepEqual(wv, gv) {
+					h.violate("JWK entry %d has %s=%v, want %v: %s", i, f, gv, wv, set)
 				}
 			}
 		}
@@ -1323,7 +1362,7 @@ func (h *H) splitLine(compact string) {
 			h.violate("splitSignedCompact(%q) returned signature %x / unsigned %q", compact, sig, unsigned)
 		}
 	}
-	h.o.Emit("J split "+tok(compact), res, true)
+	h.o.Emit("J split "+tok(compact), res, false)
 	h.o.Count("split/" + strings.Fields(res)[0])
 }
 
@@ -1412,9 +1451,10 @@ func main() {
 		panic(err)
 	}
 	rng := hlib.NewRng(seed, "c09")
-	h := &H{o: o, rng: rng, mon: mon, pool: newPool(hlib.NewRng(seed, "c09-keys"), 2)}
-	n := hlib.N(520, 10400)
+	h := &H{o: o, rng: rng, mon: mon, pool: newPool(hlib.NewRng(seed, "c09-keys"), 2), seen: map[int]bool{}}
+	n := hlib.N(520, 8320)
 	for c := 0; c < n; c++ {
 		h.runCase()
 	}
+	o.Hist["opts/product-combinations-visited(of 1440)"] = len(h.seen)
 }
